@@ -113,6 +113,11 @@ impl Ctx {
                 let mut out: Vec<String> = Vec::new();
                 let qs = m.run_query(text.to_string());
                 let mut n = 0usize;
+                if max == 0 {
+                    // create the iterator and drop it without asking for any answer
+                    drop(qs);
+                    return "...".to_string();
+                }
                 for ans in qs {
                     n += 1;
                     match ans {
